@@ -6,7 +6,7 @@
 From Coq Require Import String.
 From Coq Require Import NArith ZArith Bool List.
 Import ListNotations.
-From TV Require Import C02.Model C02.Proofs4 C03.Model C03.Proofs.
+From TV Require Import C02.Model C02.Proofs4 C03.Model C03.Proofs C03.Order.
 
 (* The keep-alive decision, for every request, server setting and handler program: the connection
    stays open after the response exactly when _can_keep_alive holds (which is: the request allows
@@ -22,6 +22,23 @@ Proof.
   intros e q p HE. unfold keeps_open. rewrite negb_true_iff. apply keeps_open_iff; exact HE.
 Qed.
 Print Assumptions C03_keeps_open_iff.
+
+(* The decision does not depend on when the response writes complete: for requests that differ only
+   in the write-completion order (writes complete at once / the transport is blocked until after /
+   until before the rest of the request arrived), the final states agree on everything except which
+   not-yet-sent bytes an abort discarded; in particular the connection is kept open or closed alike.
+   (C03_keeps_open_iff quantifies over the order as part of the request [q].) *)
+Theorem C03_decision_independent_of_write_completion_order :
+  forall e m v c i bo n ea w w' p,
+    keeps_open e (mkReq m v c i bo n ea w) p = keeps_open e (mkReq m v c i bo n ea w') p /\
+    g_early_fin (run e (mkReq m v c i bo n ea w) p) = g_early_fin (run e (mkReq m v c i bo n ea w') p) /\
+    g_out_err (run e (mkReq m v c i bo n ea w) p) = g_out_err (run e (mkReq m v c i bo n ea w') p).
+Proof.
+  intros e m v c i bo n ea w w' p.
+  destruct (run_sim e m v c i bo n ea w w' p) as (_&_&_&_&_&_&_&_&C&_&_&EF&OE).
+  unfold keeps_open. rewrite C. auto.
+Qed.
+Print Assumptions C03_decision_independent_of_write_completion_order.
 
 (* _can_keep_alive = "HTTP/1.1 without 'close', or HTTP/1.0 with 'keep-alive' and a delimited
    request body" and not no_keep_alive *)
